@@ -25,13 +25,19 @@ def run(ctx):
         'and assigns a group-uniform value',
         'R4 when a pressure-drop limit is set, every store into the flow '
         'vector (per-group and remainder) is compared with the group limit '
-        'before the return, clamping it or ending in an error']
+        'before the return, clamping it or ending in an error',
+        'R5 the per-iteration summary that feeds the next distribution reads '
+        'whole result sets: no loop variable of the orificing module is read '
+        'after its loop has ended (a stale per-timestep / per-group value '
+        'standing in for the collection)']
     ctx.not_decided += ['partition / ordering / sum as numbers', 'convergence '
                         'of the fixed-point iteration']
     r1(ctx)
     r2(ctx)
     r3(ctx)
     r4(ctx)
+    r5(ctx)
+    ctx.min_instances('C20.R5', 10)
     ctx.min_instances('C20.R1', 5)
     ctx.min_instances('C20.R2', 4)
     ctx.min_instances('C20.R3', 6)
@@ -413,3 +419,182 @@ def r4(ctx):
                     key='%s | limit check %s' % (di.full, src(t)))
     if n < 2:
         raise AnalysisError('distribute: expected >= 2 stores into m')
+
+
+# ---------------------------------------------------------------------------
+# R5: no stale loop variable
+
+STALE_POSITIVE = """
+def summarize(res_all):
+    tot = 0.0
+    for res_t in res_all:
+        tot += res_t[0]
+    return tot / res_t[1]
+"""
+
+
+def _loads_outside_comprehensions(node, names):
+    """Load-context Name nodes of `names` in an expression / statement,
+    skipping comprehension scopes that rebind the name."""
+    out = []
+
+    def rec(n, hidden):
+        if isinstance(n, (ast.ListComp, ast.SetComp, ast.GeneratorExp,
+                          ast.DictComp)):
+            h = set(hidden)
+            for g in n.generators:
+                rec(g.iter, h)
+                h |= {x.id for x in ast.walk(g.target)
+                      if isinstance(x, ast.Name)}
+                for c in g.ifs:
+                    rec(c, h)
+            for f in ('elt', 'key', 'value'):
+                if hasattr(n, f):
+                    rec(getattr(n, f), h)
+            return
+        if isinstance(n, ast.Lambda):
+            h = set(hidden) | {a.arg for a in n.args.args}
+            rec(n.body, h)
+            return
+        if isinstance(n, ast.Name):
+            if isinstance(n.ctx, ast.Load) and n.id in names and \
+                    n.id not in hidden:
+                out.append(n)
+            return
+        for ch in ast.iter_child_nodes(n):
+            rec(ch, hidden)
+    rec(node, set())
+    return out
+
+
+def _targets(t):
+    return {x.id for x in ast.walk(t) if isinstance(x, ast.Name)}
+
+
+def _scan(stmts, names, killed, out):
+    """Walk statements in execution order; report loads of `names` that are
+    not killed (re-bound) yet.  Returns the killed set after the block."""
+    for st in stmts:
+        live = names - killed
+        if not live:
+            return killed
+        if isinstance(st, (ast.FunctionDef, ast.AsyncFunctionDef,
+                           ast.ClassDef)):
+            continue
+        if isinstance(st, ast.For):
+            out += _loads_outside_comprehensions(st.iter, live)
+            k2 = killed | _targets(st.target)
+            k2 = _scan(st.body, names, k2, out)
+            _scan(st.orelse, names, k2, out)
+            killed = k2
+            continue
+        if isinstance(st, ast.While):
+            out += _loads_outside_comprehensions(st.test, live)
+            killed = _scan(st.body, names, set(killed), out) | killed
+            continue
+        if isinstance(st, ast.If):
+            out += _loads_outside_comprehensions(st.test, live)
+            k1 = _scan(st.body, names, set(killed), out)
+            k2 = _scan(st.orelse, names, set(killed), out)
+            killed = k1 | k2
+            continue
+        if isinstance(st, (ast.With, ast.AsyncWith)):
+            for it in st.items:
+                out += _loads_outside_comprehensions(it.context_expr, live)
+                if it.optional_vars is not None:
+                    killed = killed | _targets(it.optional_vars)
+            killed = _scan(st.body, names, killed, out)
+            continue
+        if isinstance(st, ast.Try):
+            k = _scan(st.body, names, set(killed), out)
+            for h in st.handlers:
+                k |= _scan(h.body, names, set(killed), out)
+            k = _scan(st.orelse, names, k, out)
+            killed = _scan(st.finalbody, names, k, out)
+            continue
+        if isinstance(st, (ast.Assign, ast.AnnAssign, ast.AugAssign)):
+            val = st.value
+            if val is not None:
+                out += _loads_outside_comprehensions(val, live)
+            tg = st.targets if isinstance(st, ast.Assign) else [st.target]
+            for t in tg:
+                if isinstance(t, ast.Name):
+                    if isinstance(st, ast.AugAssign) and t.id in live:
+                        out.append(t)
+                    killed = killed | {t.id}
+                else:
+                    out += _loads_outside_comprehensions(t, live)
+                    killed = killed | {x.id for x in ast.walk(t)
+                                       if isinstance(x, ast.Name)
+                                       and isinstance(x.ctx, ast.Store)}
+            continue
+        out += _loads_outside_comprehensions(st, live)
+    return killed
+
+
+def _within(node, anc):
+    p_ = node
+    while p_ is not None:
+        if p_ is anc:
+            return True
+        p_ = parent(p_)
+    return False
+
+
+def stale_loop_reads(fn_node, loop_locals=True):
+    """[(loop, name node)] reads of a for-loop target after the loop has
+    ended and before the name is bound again, in the statements that follow
+    the loop in its own block."""
+    res = []
+    for lp in walk_no_nested(fn_node):
+        if not isinstance(lp, ast.For):
+            continue
+        tg = _targets(lp.target)
+        # names bound only inside this loop (loop-local values): after the
+        # loop they hold what the last iteration left behind
+        inside = {x.id for st in lp.body for x in ast.walk(st)
+                  if isinstance(x, ast.Name) and isinstance(x.ctx, ast.Store)}
+        outside = {x.id for x in ast.walk(fn_node)
+                   if isinstance(x, ast.Name) and isinstance(x.ctx, ast.Store)
+                   and not _within(x, lp)}
+        a_ = fn_node.args
+        params = {y.arg for y in a_.posonlyargs + a_.args + a_.kwonlyargs}
+        if loop_locals:
+            tg |= (inside - outside - params)
+        blk = parent(lp)
+        after = []
+        for field in ('body', 'orelse', 'finalbody'):
+            lst = getattr(blk, field, None)
+            if isinstance(lst, list) and lp in lst:
+                after = lst[lst.index(lp) + 1:]
+        out = []
+        _scan(after, tg, set(), out)
+        seen = set()
+        for x in out:
+            if x.id not in seen:
+                seen.add(x.id)
+                res.append((lp, x))
+    return res
+
+
+def r5(ctx):
+    from ..core import Module
+    m = ctx.repo.mod('orificing')
+    for fi in m.funcs.values():
+        hits = stale_loop_reads(fi.node)
+        for lp, x in hits:
+            ctx.violation(
+                'C20.R5', fi, x,
+                'loop variable `%s` of the loop at line %d is read after the '
+                'loop has ended: it holds only the last element (last '
+                'timestep / group), not the collection the summary needs'
+                % (x.id, lp.lineno),
+                key='%s | stale loop variable %s' % (fi.full, x.id))
+        if not hits:
+            ctx.ok('C20.R5', fi, None, 'no loop variable read after its loop')
+    pm = Module('dassh._positive', '<positive>', 'dassh/_positive.py',
+                STALE_POSITIVE)
+    if len(stale_loop_reads(pm.funcs['summarize'].node)) != 1:
+        raise AnalysisError('C20.R5 positive example not detected: the rule '
+                            'went blind')
+    ctx.ok('C20.R5', 'synthetic positive example', None, 'detected')
